@@ -705,6 +705,7 @@ pub fn specs(tier: Tier) -> Vec<Spec> {
 }
 
 pub fn run(ctx: &mut Ctx) {
+    ctx.confirm_runs = 2;
     ctx.assume("after a connection's fence scrape is answered, everything sent to it earlier by any swarm worker has been delivered (per-channel FIFO from swarm worker to socket worker to connection; the scrape reply is merged from all swarm workers); a fence that is not answered within 5 s is reported as undecided");
     ctx.assume("which socket worker accepts a connection is the kernel's choice (sampled); all clients are IPv4 loopback addresses; no cleaning pass happens during a run");
     ctx.run_regress::<Case, _>("ws", prop);
